@@ -21,7 +21,7 @@ func runC21(c *Ctx) {
 	}
 	// C21.G1
 	if fn := c.Fn("C21.G1", "wal.(*failoverWriter).doneSyncCallback"); fn != nil {
-		fl := NewFlow(c.P).Edge("sync-ok", ZeroGuard("err"))
+		fl := NewFlow(c.P).Edge("sync-ok", ZeroGuard(ParamName(fn, 2)))
 		res := fl.Analyze(fn, emptyState())
 		n := c.Require("C21.G1", res, CallTo("wal.(*recordQueue).pop"), "records are dequeued only after a successful sync", []string{"sync-ok"})
 		if n == 0 {
@@ -31,7 +31,7 @@ func runC21(c *Ctx) {
 	// C21.O2: switch: writer installation and queue snapshot in one ww.mu region
 	if outer := c.Fn("C21.O2", "wal.(*failoverWriter).switchToNewDir"); outer != nil {
 		if clo := c.ClosureWith("C21.O2", outer, CallTo("wal.(*recordQueue).snapshotAndSwitchWriter")); clo != nil {
-			fl := NewFlow(c.P).After("held:ww.mu", MethodOn("Lock", "ww.mu")).KillAfter("held:ww.mu", MethodOn("Unlock", "ww.mu"))
+			fl := NewFlow(c.P).After("held:ww.mu", MethodOn("Lock", "recv.mu")).KillAfter("held:ww.mu", MethodOn("Unlock", "recv.mu"))
 			res := fl.Analyze(clo, emptyState())
 			c.noteFlow(fl)
 			n := c.Require("C21.O2", res, CallTo("wal.(*recordQueue).snapshotAndSwitchWriter"), "queue snapshot/replay under ww.mu", []string{"held:ww.mu"})
@@ -58,13 +58,13 @@ func runC21(c *Ctx) {
 			}
 			for _, x := range instrs(clo, CallTo("rec.(*LogWriter).CloseWithLastQueuedRecord")) {
 				args := x.(*ssa.Call).Common().Args
-				if pathHasSuffix(pathOf(args[len(args)-1]), "lastRecordIndex") {
+				if !isNoSyncIndexLiteral(c, args[len(args)-1]) {
 					return true
 				}
 			}
 			return false
 		})
-		fl := NewFlow(c.P).Edge("is-last-writer", CmpGuard(token.EQL, "i", "lastWriter.index"))
+		fl := NewFlow(c.P).Edge("is-last-writer", lastWriterGuard())
 		res := fl.Analyze(fn, emptyState())
 		c.noteFlow(fl)
 		n := c.Require("C21.G3", res, closesWithLast, "only the last writer is closed with the last queued record index", []string{"is-last-writer"})
@@ -81,7 +81,7 @@ func runC21(c *Ctx) {
 					return false
 				}
 				ia, ok := st.Addr.(*ssa.IndexAddr)
-				if !ok || !pathHasSuffix(pathOf(ia.X), "q.buffer") {
+				if !ok || !pathHasSuffix(pathOf(ia.X), "recv.buffer") {
 					return false
 				}
 				// the reclaim store writes the zero value; the push store writes a literal built from p/opts
@@ -120,7 +120,7 @@ func runC21(c *Ctx) {
 	if fn := c.Fn("C21.G2", "wal.(*virtualWALReader).nextRecord"); fn != nil {
 		lastSeq := c.Field("C21.G2", "wal.virtualWALReader.lastSeqNum")
 		fl := NewFlow(c.P).
-			Edge("seqnum-above-last", CmpGuard(token.GTR, "SeqNum", "r.lastSeqNum")).
+			Edge("seqnum-above-last", CmpGuard(token.GTR, "SeqNum", "recv.lastSeqNum")).
 			After("watermark-advanced", StoreTo(lastSeq)).
 			Edge("non-empty-batch", NonZeroGuard("Count")).
 			IterationLocal("seqnum-above-last", "watermark-advanced", "non-empty-batch")
@@ -147,9 +147,55 @@ func c21Shared(c *Ctx) {
 		if clo := c.ClosureWith("C10.O2b", outer, CallTo("rec.NewLogWriter")); clo != nil {
 			c.Chain("C10.O2b", clo, nil,
 				Step{Name: "logCreator", M: DynCall("opts.logCreator"), Gated: true},
-				Step{Name: "dir.Sync", M: MethodOn("Sync", "dir"), Gated: true},
+				Step{Name: "dir.Sync", M: MethodOn("Sync", ParamName(outer, 1)), Gated: true},
 				Step{Name: "NewLogWriter", M: CallTo("rec.NewLogWriter")},
 			)
 		}
+	}
+}
+
+// isNoSyncIndexLiteral: v is record.PendingSyncIndex{Index: record.NoSyncIndex}.
+func isNoSyncIndexLiteral(c *Ctx, v ssa.Value) bool {
+	noSync, ok := c.ConstInt("rec", "NoSyncIndex")
+	if !ok {
+		return false
+	}
+	u, isLoad := v.(*ssa.UnOp)
+	if !isLoad {
+		return false
+	}
+	a, isAlloc := u.X.(*ssa.Alloc)
+	if !isAlloc || a.Referrers() == nil {
+		return false
+	}
+	for _, r := range *a.Referrers() {
+		if fa, ok := r.(*ssa.FieldAddr); ok && fa.Referrers() != nil {
+			for _, rr := range *fa.Referrers() {
+				if st, ok := rr.(*ssa.Store); ok {
+					if k, isK := constInt(st.Val); isK && k == noSync {
+						return true
+					}
+				}
+			}
+		}
+	}
+	return false
+}
+
+// lastWriterGuard: the condition "<loop index> == <lastWriterState>.index".
+func lastWriterGuard() CondM {
+	return func(v ssa.Value) (bool, bool) {
+		bo, ok := v.(*ssa.BinOp)
+		if !ok || (bo.Op != token.EQL && bo.Op != token.NEQ) {
+			return false, false
+		}
+		isIdx := func(x ssa.Value) bool {
+			f := fieldOfValue(x)
+			return f != nil && f.Name() == "index"
+		}
+		if isIdx(bo.X) || isIdx(bo.Y) {
+			return true, bo.Op == token.NEQ
+		}
+		return false, false
 	}
 }
